@@ -424,3 +424,39 @@ Theorem C07_generated_model_call_op_is_run_op {F : Type} `{Num F} (m : @model F)
 Proof. exact (gen_call_op_is_run_op m RES sel ext forced from stateful reset w). Qed.
 
 Print Assumptions C07_generated_model_call_op_is_run_op.
+
+(* Model._run (the per-sequence loop over the timesteps) translated from reservoirpy/model.py on every run (tools/vlib/py2coq_mrun.py ->
+   gen/Gen_mrun.v, vocabulary base/MRunPrelude.v), its callees read in the hand model as for Model.call above (with_state = start_env /
+   restore_st, _load_proxys = the current states, with_feedback = the mapping in force inside the body, `_call` = one forward pass,
+   dispatch = inputs and forced feedback paired step by step, no row written at allocation): the generated loop IS run_op with
+   reset = False on the whole sequence for every stateful / from_state / selection and both outcomes -- same final environment (restored
+   when not stateful, also after a raise), same failure, and the rows `states[name][i, :] = value` are written in step order from the
+   states selected in the environment after step i, the environments whose out_states run_steps records *)
+From RV Require Import base.MRunPrelude gen.Gen_mrun proofs.Gen_mrun_eq.
+Theorem C07_generated_model_run_is_run_steps {F : Type} `{Num F} (m : @model F) (RS : Type) (sel : RS -> @env F -> selstate (list F))
+    (out0 : node) (X FB : list (nat -> option (list F))) from stateful shift rs (w : cworld) :
+  let '(w', r) := g_run m RS sel out0 X FB from stateful shift rs w in
+  let '(e', outs, ok) := ModelSem.run_op m stateful false from (combine X FB) (cur w) in
+  cur w' = e' /\ fbm w' = fbm w /\
+  match r with
+  | CtxPrelude.Ok s => ok = true /\ exists envs, outs = map (ModelSem.out_states m) envs /\ length envs = length outs /\
+                                                 s = log_from RS sel out0 rs 0 envs
+  | CtxPrelude.Exc _ => ok = false
+  end.
+Proof. exact (gen_mrun_is_run_op m RS sel out0 X FB from stateful shift rs w). Qed.
+
+Print Assumptions C07_generated_model_run_is_run_steps.
+
+(* ... and the `_call` that loop is instantiated with is the generated `_call` of gen/Gen_mcall.v whenever that one returns: with the
+   proxies at the current states (what `_load_proxys` leaves at every `_call` of the loop), same environment and same returned states *)
+Theorem C07_generated_model_run_call_is_generated_call {F : Type} `{Num F} (m : @model F) (inputs trainables : list node)
+    (edges : list edge) (sorted_by_name : list edge -> list edge) (X : pyinput (list F)) rs (w : cworld) e' s :
+  NoDup (map ModelSem.nid (ModelSem.order m)) -> NoDup inputs ->
+  (forall n, In n (map ModelSem.nid (ModelSem.order m)) -> ModelSem.parents m n = dd_get (parents_dict edges sorted_by_name) n []) ->
+  prx w = cur w ->
+  g_call m inputs edges sorted_by_name trainables (fbm w) (cur w) X rs = Val (e', s) ->
+  sem__call m (selstate (list F)) (sel_tot m rs) (ext_of (list F) inputs (map ModelSem.nid (ModelSem.order m)) X) tt w
+  = (mkCW e' (prx w) (fbm w), CtxPrelude.Ok s).
+Proof. exact (generated_call_is_sem_call m inputs trainables edges sorted_by_name X rs w e' s). Qed.
+
+Print Assumptions C07_generated_model_run_call_is_generated_call.
